@@ -458,7 +458,7 @@ var baseAssumptions = []string{
 
 func levelOf(prop string) string {
 	switch prop {
-	case "C10", "C11", "C12", "C20":
+	case "C10", "C11", "C12", "C20", "C03":
 		return "other"
 	}
 	return "proof"
